@@ -397,8 +397,14 @@ func runE2E(bin string, r *rng.R, configs int, outDir string) ([]string, []any, 
 				cfg, coqRaw(rawHeader{}), coqRaw(xo), coqfmt.StrList(e2eNames)))
 			js = append(js, e2eCaseJSON{"ReqConnectOwn", req, con, resp, rawHeader{}, xo, "upstream proxy (CONNECT made by the proxy for an https request)"})
 		}
-		// two plain requests and two CONNECTs per configuration
-		for k := 0; k < 2; k++ {
+		// three plain requests and two CONNECTs per configuration; the third plain request uses another method,
+		// among them spellings that only LOOK like CONNECT (methods are case-sensitive: "connect" is an ordinary
+		// extension method, forwarded like GET, so request and response rules apply to it, connect rules do not)
+		for k := 0; k < 3; k++ {
+			method := "GET"
+			if k == 2 {
+				method = []string{"connect", "Connect", "CONNECTX", "OPTIONS", "DELETE", "cONNECT"}[(ci+r.Intn(2))%6]
+			}
 			in := genRawHeader(r)
 			if ci == 1 {
 				in["User-Agent"] = []string{"vf-client/1"}
@@ -409,7 +415,7 @@ func runE2E(bin string, r *rng.R, configs int, outDir string) ([]string, []any, 
 			}
 			c.SetDeadline(time.Now().Add(5 * time.Second))
 			var sb strings.Builder
-			sb.WriteString("GET http://example.test/p HTTP/1.1\r\nHost: example.test\r\n")
+			sb.WriteString(method + " http://example.test/p HTTP/1.1\r\nHost: example.test\r\n")
 			sendHeaders(&sb, in)
 			sb.WriteString("\r\n")
 			up.mu.Lock()
@@ -420,8 +426,12 @@ func runE2E(bin string, r *rng.R, configs int, outDir string) ([]string, []any, 
 			c.Close()
 			up.mu.Lock()
 			if err == nil && len(up.seen) == n0+1 {
-				emit("ReqPlain", "ReqPlain", in, up.seen[n0].h, "upstream proxy")
-				emit("RespPlain", "RespPlain", up.respHead, rh, "client")
+				wh := ""
+				if method != "GET" {
+					wh = " (method " + method + ")"
+				}
+				emit("ReqPlain", "ReqPlain", in, up.seen[n0].h, "upstream proxy"+wh)
+				emit("RespPlain", "RespPlain", up.respHead, rh, "client"+wh)
 			}
 			up.mu.Unlock()
 		}
